@@ -194,6 +194,97 @@ def _report_walk(ctx, bins, level, s):
         level, s["paths"], s["steps"], s["mismatch_count"], s.get("drift_count", 0), s["wall_s"]))
 
 
+
+# ---------------------------------------------------------------- file level (DemoFile.tla)
+
+FILE_CFG = {"quick": "MCF_quick.cfg", "thorough": "MCF_thorough.cfg"}
+_RE_VERDICT = re.compile(r'<<"VERDICT", (\d+), "(\w+)", "([^"]*)">>')
+
+
+def _judge_files(ctx, trace_path, label):
+    """DemoFileTrace judges every event; returns [(event index (1-based), class, what)]."""
+    ok, res = core.validate_trace("DemoFileTrace.tla", "DemoFileTrace.cfg", trace_path, cwd=SPECDIR, timeout=1800, heap="4g")
+    if not ok:
+        raise core.ToolError("file-level judge failed on %s: %s" % (label, (res.error or res.out[-800:])))
+    return [(int(a), b, c) for a, b, c in _RE_VERDICT.findall(res.out)], res
+
+
+def _file_key(ev, what):
+    a = ev.get("act", {})
+    i = a.get("id", {})
+    o = ev.get("out", {})
+    if o.get("r") in ("panic", "hang"):
+        return _norm("file:%s:%s:at=%s" % (o.get("r"), a.get("a"), o.get("loc", o.get("at", ""))))
+    if o.get("typed") in ("panic", "hang"):
+        return _norm("file:typed-%s:at=%s" % (o.get("typed"), o.get("typed_loc", "")))
+    return "file:%s:%s:v%s:src%s:%s" % (a.get("a"), what.replace(" ", "-"), i.get("v", "?"),
+                                         (a.get("src") or {}).get("pol", a.get("src")) if isinstance(a.get("src"), dict) else a.get("src"),
+                                         (i.get("mut") or {}).get("m", "none"))
+
+
+def _report_file_verdicts(ctx, events, verdicts, label):
+    seen = {}
+    ndrift = 0
+    for idx, cls, what in verdicts:
+        ev = events[idx - 1] if 0 < idx <= len(events) else {}
+        if cls == "drift":
+            ndrift += 1
+            continue
+        key = _file_key(ev, what)
+        seen[key] = seen.get(key, 0) + 1
+        if seen[key] == 1:
+            a = ev.get("act", {})
+            ctx.report(key, "%s: %s -- %s: case %s; the code returned %s" % (
+                label, what, a.get("a"), json.dumps(a.get("id", {}))[:300], json.dumps(ev.get("out", {}))[:600]),
+                {"level": "file", "act": a})
+    if ndrift:
+        ctx.report_drift("%s: %d events deviate from DemoFile.tla outside what C15 states (legacy versions, malformed parts, error classes)" % (label, ndrift))
+    return seen, ndrift
+
+
+def _files(ctx, bins, tier):
+    """Direction A at the file level: TLC enumerates recordings of all versions x mutations x byte sources, checks the
+    laws of the format on each and exports the bytes; the real Reader / DemoReader / Writer run on them; DemoFileTrace judges."""
+    trace = os.path.join(ctx.workdir, "files.ndjson")
+    t0 = time.time()
+    tres, rc, out = core.tlc_pipe("MC_DemoFile.tla", FILE_CFG[tier], [os.path.join(bins, "vh-demo"), "files", "--out", trace],
+                                  cwd=SPECDIR, timeout=900 if tier == "quick" else 2400)
+    if rc == 97:
+        m = re.search(r"^HANG (.*)$", out, re.M)
+        ctx.report("file:hang", "a call into the reader / writer did not return on a TLC-generated file: %s" % (m.group(1)[:500] if m else "?"),
+                   {"level": "file-case", "case": m.group(1) if m else ""})
+        return
+    if rc != 0:
+        if rc in CRASH_SIGNALS:
+            ctx.report("crash:files", "the process reading TLC-generated files died with code %s" % rc, {"level": "file", "rc": rc})
+            return
+        raise core.ToolError("vh-demo files exited with %s: %s" % (rc, out[-500:]))
+    s = json.loads(out.strip().splitlines()[-1])
+    tail = "\n".join(s.get("tlc_tail", []))
+    r0 = core.TlcResult()
+    r0.rc = 0
+    core.parse_tlc(tail, r0)
+    r0.wall_s = time.time() - t0
+    if r0.violated:
+        ctx.report("spec:file:%s" % r0.violated, "MC_DemoFile violates its law %s (design error)" % r0.violated, {"tlc": tail[-3000:]})
+        return
+    if "Model checking completed. No error has been found" not in tail or not s.get("cases"):
+        raise core.ToolError("file-level export unusable: %s" % tail[-800:])
+    ctx.add_states(r0, "MC_DemoFile: ValidReadsBack PrefixLaw TruncLaw HeaderTruncLaw Total (one state per case)")
+    events = core.read_ndjson(trace)
+    verdicts, res = _judge_files(ctx, trace, "file level")
+    ctx.coverage["traces_validated_against_impl"] += 1
+    ctx.coverage["evaluations"] += len(events)
+    ctx.coverage["distinct_nontrivial"] += s["cases"]
+    seen, ndrift = _report_file_verdicts(ctx, events, verdicts, "file level (direction A)")
+    ctx.add_run("file level: TLC-generated files on the real Reader / DemoReader / Writer, judged by DemoFileTrace", cases=s["cases"],
+                writer_runs=s["writes"], events=len(events), violations=sum(seen.values()), drift=ndrift,
+                outcome_classes=s.get("classes"), wall_s=round(time.time() - t0, 1))
+    if events:
+        e = events[len(events) // 2]
+        ctx.sample({"file_case": e["act"].get("id"), "out": {k: v for k, v in e["out"].items() if k != "items"}})
+    core.log("[C15] file level: cases=%d writes=%d violations=%d drift=%d in %.0fs" % (s["cases"], s["writes"], sum(seen.values()), ndrift, time.time() - t0))
+
 # ---------------------------------------------------------------- direction B
 
 def _drive(bins, level, seed, runs, n, path):
@@ -328,6 +419,8 @@ def run(ctx):
     ths = [threading.Thread(target=work, args=(l,)) for l in ("lo", "hi")]
     for t in ths:
         t.start()
+    # 2b. the file level (TLC-generated files of all versions, mutations, byte sources), while the walks run
+    _files(ctx, bins, tier)
     for t in ths:
         t.join()
     for l in ("lo", "hi"):
@@ -354,6 +447,28 @@ def replay(ctx, path):
     ctx._nrep = 9000  # do not overwrite the replay files of the run that produced `path`
     rp = obj.get("replay", {})
     plan, level = rp.get("plan"), rp.get("level")
+    if level == "file":
+        bins = core.build_harness(["vh-demo"])
+        rc, out = core.run_harness([os.path.join(bins, "vh-demo"), "refile"], stdin=json.dumps(rp["act"]) + "\n", timeout=600)
+        if rc != 0:
+            if rc in CRASH_SIGNALS or rc == 97:
+                ctx.report(obj.get("key", "file:crash"), "replay process ended with code %s" % rc, rp)
+                return
+            raise core.ToolError("vh-demo refile exited with %s" % rc)
+        tp = os.path.join(ctx.workdir, "replay.ndjson")
+        open(tp, "w").write(out)
+        events = core.read_ndjson(tp)
+        print(json.dumps(events[0])[:2000])
+        verdicts, res = _judge_files(ctx, tp, "replay")
+        ctx.add_states(res, "replay: file-level judge")
+        ctx.coverage["traces_validated_against_impl"] += 1
+        ctx.coverage["evaluations"] += len(events)
+        ctx.coverage["distinct_nontrivial"] = 2
+        ctx.sample({"act": {k: v for k, v in rp["act"].items() if k != "bytes"}})
+        seen, nd = _report_file_verdicts(ctx, events, verdicts, "replay")
+        if not seen:
+            print("replay: accepted by the specification%s" % (" (drift)" if nd else ""))
+        return
     if not plan or level not in ("lo", "hi"):
         raise core.ToolError("replay file has no plan / level")
     bins = core.build_harness(["vh-demo"])
